@@ -487,6 +487,181 @@ def loops_to_comprehensions(fn, used):
     return _map_bodies(fn, rw)
 
 
+_NEG_CMP = {ast.Eq: ast.NotEq, ast.NotEq: ast.Eq, ast.Is: ast.IsNot, ast.IsNot: ast.Is, ast.In: ast.NotIn, ast.NotIn: ast.In,
+            ast.Lt: ast.GtE, ast.GtE: ast.Lt, ast.Gt: ast.LtE, ast.LtE: ast.Gt}
+
+
+def negate(t, used):
+    """the negation of a test in negation normal form (R19: De Morgan, double negation, complement
+    of a single comparison; `<`/`>=` and `>`/`<=` are complements for totally ordered operands --
+    no NaN -- which is assumed and named among the rules used)"""
+    if isinstance(t, ast.UnaryOp) and isinstance(t.op, ast.Not):
+        return nnf(t.operand, used)
+    if isinstance(t, ast.BoolOp):
+        op = ast.Or() if isinstance(t.op, ast.And) else ast.And()
+        return ast.BoolOp(op=op, values=[negate(v, used) for v in t.values])
+    if isinstance(t, ast.Compare) and len(t.ops) == 1 and type(t.ops[0]) in _NEG_CMP:
+        if isinstance(t.ops[0], (ast.Lt, ast.GtE, ast.Gt, ast.LtE)):
+            used.add("R19:complement-of-an-ordering-comparison(total-order-assumed)")
+        return ast.Compare(left=t.left, ops=[_NEG_CMP[type(t.ops[0])]()], comparators=t.comparators)
+    return ast.UnaryOp(op=ast.Not(), operand=nnf(t, used))
+
+
+def nnf(t, used):
+    if isinstance(t, ast.UnaryOp) and isinstance(t.op, ast.Not):
+        inner = t.operand
+        if isinstance(inner, (ast.UnaryOp, ast.BoolOp)) or (isinstance(inner, ast.Compare) and len(inner.ops) == 1 and type(inner.ops[0]) in _NEG_CMP):
+            used.add("R19:negation-normal-form")
+            return negate(inner, used)
+        return t
+    if isinstance(t, ast.BoolOp):
+        return ast.BoolOp(op=t.op, values=[nnf(v, used) for v in t.values])
+    return t
+
+
+def _exits(body):
+    """every path through the statement list leaves the enclosing block (return/raise/continue/break)"""
+    if not body:
+        return False
+    last = body[-1]
+    if isinstance(last, (ast.Return, ast.Raise, ast.Continue, ast.Break)):
+        return True
+    if isinstance(last, ast.If):
+        return bool(last.orelse) and _exits(last.body) and _exits(last.orelse)
+    if isinstance(last, ast.Try) and not last.finalbody:
+        main = _exits(last.orelse) if last.orelse else _exits(last.body)
+        return main and all(_exits(h.body) for h in last.handlers)
+    return False
+
+
+def structure_ifs(fn, used):
+    """R20 (guard clauses and nesting): tests in negation normal form; `if A: if B: S` == `if A and
+    B: S`; `if t: <exits>` followed by S == `if t: <exits> else: S`; a branch that is only `pass`
+    is dropped (negating the test); the complement orientation of a two-armed `if` is canonical
+    (ordering tests are printed with `<` / `<=`, equality with `==`, membership with `in`)."""
+    def rw(body):
+        out = []
+        i = 0
+        body = list(body)
+        while i < len(body):
+            st = body[i]
+            if isinstance(st, ast.If):
+                st.test = nnf(st.test, used)
+                # R21 tail sinking: `if t: A else: B` followed by a short tail S == `if t: A; S else: B; S`
+                rest = body[i + 1:]
+                if st.orelse and rest and len(rest) <= 3 and not any(isinstance(x, (ast.FunctionDef, ast.AsyncFunctionDef, ast.ClassDef)) for x in rest):
+                    if not _exits(st.body):
+                        st.body = st.body + copy.deepcopy(rest)
+                    if not _exits(st.orelse):
+                        st.orelse = st.orelse + copy.deepcopy(rest)
+                    used.add("R21:common-tail-sunk-into-both-arms")
+                    st.body, st.orelse = rw(st.body), rw(st.orelse)
+                    out.append(st)
+                    i = len(body)
+                    continue
+                # else-ification
+                if not st.orelse and _exits(st.body) and i + 1 < len(body):
+                    st.orelse = rw(body[i + 1:])
+                    used.add("R20:guard-clause==if/else")
+                    out.append(st)
+                    i = len(body)
+                    continue
+            out.append(st)
+            i += 1
+        res = []
+        for st in out:
+            if isinstance(st, ast.If):
+                # pass-only arms
+                def only_pass(b):
+                    return bool(b) and all(isinstance(x, ast.Pass) for x in b)
+                if only_pass(st.body) and st.orelse and not only_pass(st.orelse):
+                    st.test, st.body, st.orelse = negate(st.test, used), st.orelse, []
+                    used.add("R20:pass-arm-dropped")
+                elif only_pass(st.orelse):
+                    st.orelse = []
+                # nested single if without else
+                while len(st.body) == 1 and isinstance(st.body[0], ast.If) and not st.orelse and not st.body[0].orelse:
+                    inner = st.body[0]
+                    st.test = ast.BoolOp(op=ast.And(), values=[st.test, nnf(inner.test, used)])
+                    st.body = inner.body
+                    used.add("R20:nested-if==and")
+                # canonical orientation of a two-armed if
+                if st.orelse and not (len(st.orelse) == 1 and isinstance(st.orelse[0], ast.If)):
+                    t = st.test
+                    flip = (isinstance(t, ast.UnaryOp) and isinstance(t.op, ast.Not)) or \
+                           (isinstance(t, ast.Compare) and len(t.ops) == 1 and isinstance(t.ops[0], (ast.NotEq, ast.NotIn, ast.GtE, ast.Gt, ast.Is)) and
+                            not (isinstance(t.ops[0], ast.Is) and not (isinstance(t.comparators[0], ast.Constant) and t.comparators[0].value is None)))
+                    if flip:
+                        st.test, st.body, st.orelse = negate(t, used), st.orelse, st.body
+                        used.add("R15:branch-order")
+            res.append(st)
+        return res
+
+    for _ in range(3):
+        fn = _map_bodies(fn, rw)
+    return fn
+
+
+def loops_to_sum(fn, used):
+    """R18: `x = 0` immediately followed by `for t in it: x = x + e` (or `x += e`) is
+    `x = sum([e for t in it])` -- the items are evaluated in the same order"""
+    def rw(body):
+        out = []
+        i = 0
+        while i < len(body):
+            st = body[i]
+            nxt = body[i + 1] if i + 1 < len(body) else None
+            if (isinstance(st, ast.Assign) and len(st.targets) == 1 and isinstance(st.targets[0], ast.Name) and isinstance(st.value, ast.Constant) and st.value.value == 0 and type(st.value.value) is int
+                    and isinstance(nxt, ast.For) and not nxt.orelse and len(nxt.body) == 1):
+                name = st.targets[0].id
+                inner = nxt.body[0]
+                e = None
+                if isinstance(inner, ast.AugAssign) and isinstance(inner.op, ast.Add) and isinstance(inner.target, ast.Name) and inner.target.id == name:
+                    e = inner.value
+                elif (isinstance(inner, ast.Assign) and len(inner.targets) == 1 and isinstance(inner.targets[0], ast.Name) and inner.targets[0].id == name and isinstance(inner.value, ast.BinOp)
+                      and isinstance(inner.value.op, ast.Add) and isinstance(inner.value.left, ast.Name) and inner.value.left.id == name):
+                    e = inner.value.right
+                if e is not None and not any(isinstance(x, ast.Name) and x.id == name for x in ast.walk(e)):
+                    comp = ast.ListComp(elt=e, generators=[ast.comprehension(target=nxt.target, iter=nxt.iter, ifs=[], is_async=0)])
+                    out.append(ast.Assign(targets=st.targets, value=ast.Call(func=ast.Name(id="sum", ctx=ast.Load()), args=[comp], keywords=[]), lineno=st.lineno))
+                    used.add("R18:accumulation-loop==sum(list)")
+                    i += 2
+                    continue
+            out.append(st)
+            i += 1
+        return out
+    return _map_bodies(fn, rw)
+
+
+def inline_returned_temp(fn, used):
+    """R6b: `x = E` immediately followed by `return x` is `return E`"""
+    def rw(body):
+        out = []
+        i = 0
+        while i < len(body):
+            st = body[i]
+            nxt = body[i + 1] if i + 1 < len(body) else None
+            if (isinstance(st, ast.Assign) and len(st.targets) == 1 and isinstance(st.targets[0], ast.Name) and isinstance(nxt, ast.Return)
+                    and isinstance(nxt.value, ast.Name) and nxt.value.id == st.targets[0].id):
+                out.append(ast.Return(value=st.value))
+                used.add("R6:single-use temporary inlined (evaluation order unchanged)")
+                i += 2
+                continue
+            out.append(st)
+            i += 1
+        return out
+    return _map_bodies(fn, rw)
+
+
+class _SumGen(ast.NodeTransformer):
+    """sum(<generator>) == sum([<list comprehension>]) (consumed at once)"""
+    def visit_Call(self, n):
+        self.generic_visit(n)
+        if isinstance(n.func, ast.Name) and n.func.id in ("sum", "any", "all", "list", "tuple") and len(n.args) == 1 and isinstance(n.args[0], ast.GeneratorExp) and n.func.id == "sum":
+            n.args = [ast.ListComp(elt=n.args[0].elt, generators=n.args[0].generators)]
+        return n
+
+
 def canonical_branches(fn, used):
     """R15: `if not c: A else: B` == `if c: B else: A`; `if x is None: A else: B` ==
     `if x is not None: B else: A` (both arms present, no elif chain on the swapped arm)"""
@@ -586,7 +761,13 @@ def compare(sync_fn, async_fn, facts_sync=None, facts_async=None, sigs=None):
     used2: set = set()
     def last_resort(fn):
         fn = copy.deepcopy(fn)
+        fn = ifs_to_ifexp(fn, used2)   # before any tail is sunk into the arms of such an `if`
+        for _ in range(2):
+            fn = strip_tail_continue(structure_ifs(fn, used2), used2)
+        fn = structure_ifs(fn, used2)
+        fn = loops_to_sum(_SumGen().visit(fn), used2)
         fn = loops_to_comprehensions(ifs_to_ifexp(fn, used2), used2)
+        fn = inline_returned_temp(fn, used2)
         r2 = Rules(is_generator_pair=False, signatures=sigs or {})
         for sub in ast.walk(fn):
             if isinstance(sub, ast.FunctionDef):
@@ -597,5 +778,6 @@ def compare(sync_fn, async_fn, facts_sync=None, facts_async=None, sigs=None):
     a2, b2 = last_resort(a), last_resort(b)
     if ast.unparse(a2) == ast.unparse(b2):
         return True, "tier2:congruence modulo rewrite rules", sorted(used | used2), []
+    sa, sb = ast.unparse(a2), ast.unparse(b2)
     diff = [l for l in difflib.unified_diff(sa.splitlines(), sb.splitlines(), "sync", "async(erased)", lineterm="", n=1)]
     return False, "differs", sorted(used), diff
